@@ -298,7 +298,8 @@ def run(ctx):
                 if not reported:
                     print("KNOWN-FINDING: property=C13 %s (%s; proposed in notes/findings-hashtable.txt)" % (proposed[key] or text, key), flush=True)
                     reported = True
-                ctx.notes.append("proposed finding reproduced: " + key)
+                if ("proposed finding reproduced: " + key) not in ctx.notes:
+                    ctx.notes.append("proposed finding reproduced: " + key)
             else:
                 ctx.fail(key, text, {"line": sm[i], "output": o[-2000:]})
     ctx.count("self-merge probe", len(sm), len(set(sm)))
